@@ -9,6 +9,8 @@
 import WR.C19.LemmasRender
 import WR.C19.Total
 import WR.C19.ScopeStep
+import WR.C19.ScopeRefine
+import WR.C19.ScopeSpecProof
 import WR.C19.Spec
 import WR.Gen.C19Styles
 namespace WR.Props.C19
@@ -342,11 +344,139 @@ example : Match [⟨"c", 7, 3⟩] [9, 7] (Values.put (fun _ => []) "c" [3]) ["c"
     · have h' : ¬ "c" = n := fun e => h e.symm
       simp [proj, h, h']⟩
 
-/- scope_spec — full statement, NOT proved (searched only: L2 correspondence + judge):
-     theorem scope_spec (root : Elem) : observe root = some (specObserveOrd false root)
-   i.e. the stack machine of elementToBox/UpdateCounters computes, for every element tree and every
-   assignment, the counters sets of CSS Lists 3 §4.4 (inherit from parent / preceding sibling /
-   preceding element, instantiate replacing a sibling's instance; reset, increment, set). -/
+/-! ### scope_spec, layer 1: invariants of the threaded counters set
+
+`thWalk` (WR/C19/ScopeThread.lean) visits the tree in document order with ONE counters set: each
+box-generating element / ::before / ::after applies the standard's `applyOps` (instantiate, increment,
+set — counters carry their creator), and the end of an element removes the counters its children
+created.  `TInv s ids next`: per name, counters created at the current level (`ids`) sit only in the
+innermost position, creators are pairwise distinct and `< next`. -/
+
+/-- visiting any element (any subtree) keeps the invariants, leaves the counters of the outer levels
+    in place (`outer`: their creators, per name, in order) and only consumes fresh ids -/
+theorem thread_invariants (e : Elem) (t : Th) (h : TInv t.set t.ids t.next) :
+    TInv (thWalk e t).1.set (thWalk e t).1.ids (thWalk e t).1.next
+    ∧ (∀ n, outer (thWalk e t).1.set (thWalk e t).1.ids n = outer t.set t.ids n)
+    ∧ t.next ≤ (thWalk e t).1.next :=
+  let s := thWalk_step e t h
+  ⟨s.inv, s.outer, s.next⟩
+
+/-- the state elementToBox starts with satisfies them -/
+theorem thread_invariants_init : TInv [⟨"footnote", 0, 0⟩] [0] 1 := by
+  refine ⟨fun n => ?_, by simp⟩
+  by_cases h : n = "footnote"
+  · subst h; exact ⟨by simp [crs, proj], by simp [crs, proj], by simp [crs, proj]⟩
+  · have h' : ¬ "footnote" = n := fun e => h e.symm
+    have : proj [⟨"footnote", 0, 0⟩] n = [] := by simp [proj, h']
+    rw [this]; exact good_nil _ _
+
+/-! ### scope_spec, layer 2: the stack machine computes the threaded set -/
+
+/-- pop_removes_children_counters: when an element ends, popping the sibling scope of its children —
+    one `dropLast` per name recorded there — removes exactly the counters created by the children
+    (`closeScope`), and the restored sibling scope of the element's own level is again the set of names
+    whose innermost counter was created by the element or a preceding sibling -/
+theorem pop_removes_children_counters {r : Th} {s : CSet} {outerIds : List Nat} {vals : Values}
+    {sc sib : List String} {up : List (List String)}
+    (hm : Match r.set r.ids vals sc) (hn : sc.Nodup) (hi : TInv r.set r.ids r.next)
+    (hcr : ∀ n, crs (proj (closeScope r) n) = crs (proj s n))
+    (hs : ∀ n, sib.contains n = (match (proj s n).getLast? with
+      | some vc => outerIds.contains vc.2
+      | none => false)) :
+    ∃ vals', popScope ⟨vals, sc :: up⟩ = some ⟨vals', up⟩ ∧ Match (closeScope r) outerIds vals' sib :=
+  pop_match hm hn hi hcr hs
+
+example : ∃ vals', popScope ⟨Values.put (fun _ => []) "c" [1, 5], ["c"] :: [[]]⟩ = some ⟨vals', [[]]⟩ ∧ vals' "c" = [1] :=
+  ⟨_, rfl, by decide⟩
+
+/-- scope_thread_spec: for EVERY element tree and every reset / increment / set assignment, the stack
+    machine of elementToBox / UpdateCounters never fails and what ::marker, ::before and ::after read
+    (all instances of every counter name, outermost first) is what the threaded counters set gives:
+    counters with creators, the standard's instantiate / increment / set at each element, children's
+    counters out of scope when the element ends -/
+theorem scope_thread_spec (root : Elem) : observe root = some (thWalk root th0).2 := by
+  have hrel : Rel th0 State.init.values ["footnote"] := by
+    refine ⟨⟨?_, ?_⟩, by simp, thread_invariants_init⟩
+    · intro n
+      by_cases h : n = "footnote"
+      · subst h; simp [State.init, Values.put, th0, proj]
+      · have h' : ¬ "footnote" = n := fun e => h e.symm
+        simp [State.init, Values.put, th0, proj, h, h']
+    · intro n
+      by_cases h : n = "footnote"
+      · subst h; simp [th0, proj]
+      · have h' : ¬ "footnote" = n := fun e => h e.symm
+        simp [th0, proj, h, h']
+  obtain ⟨vals', sib', hw, _⟩ := walk_refines root th0 State.init.values ["footnote"] [] hrel
+  have : State.init = ⟨State.init.values, ["footnote"] :: []⟩ := rfl
+  rw [observe, this, hw]; rfl
+
+/-! ### scope_spec, layers 3 and 4: the standard's inheritance reconstructs the threaded set -/
+
+/-- inherit_reconstructs: CSS Lists 3 §4.4.1 "inherit counters" (copy of the parent's set, then the
+    preceding sibling's counters that are not there yet, then the values of the element preceding in
+    tree order), applied to the parent's set, the set `s` the preceding sibling ended its own step with
+    and the value source `L`, yields the threaded set `K`, name by name — provided the parent's
+    counters are a prefix of `s`, `K` has the counters of `s` (the children's are gone), `L` holds every
+    counter of `K` with its current value, and creators are distinct per name.  (The tree induction
+    `walk_spec` establishes these hypotheses at every element.) -/
+theorem inherit_reconstructs {parent s L K : CSet} (hp : PrefixOf parent s)
+    (hn : ∀ n, (crs (proj s n)).Nodup) (hcr : ∀ n, crs (proj K n) = crs (proj s n))
+    (hsub : ∀ n, ∀ vc ∈ proj K n, vc ∈ proj L n) (hl : ∀ n, (crs (proj L n)).Nodup) :
+    ∀ n, proj (inheritCounters parent s L) n = proj K n :=
+  WR.C19.inherit_reconstructs hp hn hcr hsub hl
+
+example : ∀ n, proj (inheritCounters [⟨"c", 1, 0⟩] [⟨"c", 1, 0⟩, ⟨"d", 2, 5⟩] [⟨"c", 1, 4⟩, ⟨"d", 2, 6⟩, ⟨"e", 3, 1⟩]) n =
+    proj [⟨"c", 1, 4⟩, ⟨"d", 2, 6⟩] n := by
+  apply inherit_reconstructs (s := [⟨"c", 1, 0⟩, ⟨"d", 2, 5⟩])
+  · intro n
+    by_cases h1 : n = "c"
+    · subst h1; simp [proj, crs]
+    · have h1' : ¬ "c" = n := fun e => h1 e.symm
+      simp [proj, crs, h1']
+  all_goals
+    intro n
+    by_cases h1 : n = "c"
+    · subst h1; simp [proj, crs]
+    · have h1' : ¬ "c" = n := fun e => h1 e.symm
+      by_cases h2 : n = "d"
+      · subst h2; simp [proj, crs]
+      · have h2' : ¬ "d" = n := fun e => h2 e.symm
+        by_cases h3 : n = "e"
+        · subst h3; simp [proj, crs]
+        · have h3' : ¬ "e" = n := fun e => h3 e.symm
+          simp [proj, crs, h1', h2', h3']
+
+/-- the walk of the specification and the threaded walk observe the same, for every element tree -/
+theorem spec_thread (root : Elem) : specObserveOrd false root = (thWalk root th0).2 := by
+  have hb : BInv [] { set := [⟨"footnote", 0, 0⟩], ids := [0], last := [⟨"footnote", 0, 0⟩], next := 1 } th0 := by
+    refine ⟨rfl, rfl, ?_⟩
+    intro n
+    have hu := (thread_invariants_init.good n).uniq
+    refine ⟨?_, fun _ h => h, hu, by simp [proj, crs]⟩
+    have : addNew (proj [] n) (proj [⟨"footnote", 0, 0⟩] n) = proj [⟨"footnote", 0, 0⟩] n := by
+      have := addNew_append (proj [⟨"footnote", 0, 0⟩] n) [] (by simp [crs]) hu
+      simpa [proj] using this
+    show proj th0.set n = _
+    rw [this]
+    exact (refresh_eq hu _ _ rfl (fun _ h => h)).symm
+  exact (walk_spec root [] _ th0 hb thread_invariants_init).2
+
+/-- scope_spec — for EVERY element tree and EVERY counter-reset / counter-increment / counter-set
+    assignment (display:none subtrees, list items' implicit increment, ::before / ::after included):
+    the stack machine of elementToBox / UpdateCounters (push of a sibling scope per element, pop at its
+    end) never fails, and at every ::marker, ::before and ::after the instances it lists for every
+    counter name — `counters()` outermost first, `counter()` the innermost — are those of the counters
+    set CSS Lists 3 §4.4 defines for that element: inherited from the parent, the preceding sibling
+    and the preceding element in tree order; counter-reset instantiating (replacing an instance the
+    element or a preceding sibling created, else nesting), then counter-increment, then counter-set,
+    each on the innermost instance and creating one at 0 if there is none. -/
+theorem scope_spec (root : Elem) : observe root = some (specObserveOrd false root) := by
+  rw [scope_thread_spec, spec_thread]
+
+example : observe (.node false ⟨[("c", 1)], [], none, false⟩ none none
+    [.node false ⟨[], [], some [("c", 2)], false⟩ (some ⟨[], [], some [], false⟩) none []]) ≠ none := by
+  rw [scope_spec]; simp
 
 /-- the order of CSS Lists 3: increment, then set (`counter-increment: c 2; counter-set: c 10` shows 10;
     before the fix 8b9de81 of /repo the code applied set first and showed 12 — replayed then) -/
